@@ -266,6 +266,19 @@ func c09Graph(r *rand.Rand, variant int) *c09Pool {
 		}
 		ring(o[1 : 1+a])
 		ring(o[1+a:])
+	case 4: // a ring of 3..5 with a fragment leading back along it, plus 0..2 dead ends
+		p.kind = "back-edge"
+		k := 3 + r.Intn(3)
+		nd := r.Intn(3)
+		o := c09Overhangs(r, k+nd, g.Ov)
+		for s := 0; s < k; s++ {
+			add(o[s], o[(s+1)%k])
+		}
+		from := 1 + r.Intn(k-1)
+		add(o[(from+1)%k], o[from]) // against the direction of the ring
+		for d := 0; d < nd; d++ {
+			add(o[r.Intn(k)], o[k+d])
+		}
 	case 3: // A->B, B->C, C->B
 		p.kind = "rho"
 		o := c09Overhangs(r, 3, g.Ov)
@@ -585,8 +598,11 @@ func c09Judge(w *mon.W, id string, p *c09Pool, run c09Run, how string) (sig stri
 		} else if !p.relaxed {
 			return fail(fmt.Sprintf("spurious construct %d: %s is none of the %d rings the overhangs allow", i, clip(c.Sequence, 300), len(expect)))
 		} else {
-			ok, decided := oracle.IsClosedWalk(u, p.frags, 200000)
+			ok, decided := oracle.IsClosedWalk(u, p.frags, 200000, true)
 			if decided && !ok {
+				if any, d2 := oracle.IsClosedWalk(u, p.frags, 200000, false); any && d2 {
+					return fail(fmt.Sprintf("spurious construct %d: %s can only be laid out from the pool by using a supplied fragment more often than it was supplied", i, clip(c.Sequence, 300)))
+				}
 				return fail(fmt.Sprintf("construct %d: %s is not a ring of pool fragments joined through shared overhangs", i, clip(c.Sequence, 300)))
 			}
 			if !decided {
@@ -629,8 +645,8 @@ func runC09(w *mon.W) {
 			p = c09Designed(r, i%96 == 95)
 		} else {
 			v := i - nDesigned
-			if v > 3 {
-				v = 1 + r.Intn(4)
+			if v > 4 {
+				v = 1 + r.Intn(5)
 			}
 			p = c09Graph(r, v)
 		}
